@@ -228,7 +228,7 @@ Definition plan_scan (o : opts) (frs : list frag) : outcome (list planned * bool
   let entries := if pushed_down then pushes else fulls in
   Ok (map (fun fe : frag * option ranges =>
              match snd fe with
-             | Some (_ :: _ as rs) => Some (rs, choose_filter o (fst fe) pushed_down)
+             | Some ((_ :: _) as rs) => Some (rs, choose_filter o (fst fe) pushed_down)
              | _ => None
              end) (combine frs entries),
       pushed_down).
